@@ -100,7 +100,7 @@ func ruleC10R1(c *Ctx) {
 				fmt.Sprintf("the length is not shown to be within 0..%d: the header's length field is truncated and the stream no longer decodes", max))
 		}
 	}
-	c.floor("C10.R1", "calls of 4-bit / 16-bit msgpack headers", n, 12)
+	c.floor("C10.R1", "calls of 4-bit / 16-bit msgpack headers", n, 8)
 }
 
 // controllingCond: canonical condition + truth under which alone the instruction is reached
